@@ -7,6 +7,12 @@ use std::io::{self, BufRead, Write};
 use std::panic::{catch_unwind, AssertUnwindSafe};
 
 mod codec;
+mod conn;
+mod names;
+mod reqp;
+mod response;
+mod strp;
+mod sync;
 
 pub type Arg = Vec<u128>;
 pub type Args = Vec<Arg>;
@@ -58,6 +64,12 @@ fn fmt_args(out: &mut String, res: &Args) {
 fn dispatch(mode: &str, a: &Args) -> Args {
     // each module owns its modes: `dispatch(mode, args) -> Option<Args>`
     None.or_else(|| codec::dispatch(mode, a))
+        .or_else(|| names::dispatch(mode, a))
+        .or_else(|| response::dispatch(mode, a))
+        .or_else(|| reqp::dispatch(mode, a))
+        .or_else(|| strp::dispatch(mode, a))
+        .or_else(|| conn::dispatch(mode, a))
+        .or_else(|| sync::dispatch(mode, a))
         .unwrap_or_else(|| vec![vec![999_997]])
 }
 
